@@ -441,7 +441,7 @@ class C04(WorldCheck):
                    "Jacobi sweeps are compared with the source values at the sweep's transfer",
                    "index forms exercised: full, flat int list (incl. negative), flat slice (incl. negative step), int, "
                    "tuple, ellipsis, non-flat int list into multi-dimensional sources"]
-    knobs = dict(forms=spec.FORMS_ALL, temps=True, groups=0.6, promote=0.5, auto_ivc=0.3)
+    knobs = dict(forms=spec.FORMS_ALL, temps=True, groups=0.6, promote=0.5, auto_ivc=0.3, discrete=0.35)
 
     def world_knobs(self, rng):
         k = dict(self.knobs)
@@ -458,6 +458,10 @@ class C04(WorldCheck):
         for _ in range(rng.randint(1, 4)):
             if rng.random() < 0.6:
                 ops.append(gen_set(rng, w, with_units=True, with_idx=True))
+            if rng.random() < 0.3 and any(c.get('discrete_out') for c in w['comps'] if c['kind'] == 'ivc'):
+                v0 = next(c['discrete_out'][0]['val'] for c in w['comps'] if c['kind'] == 'ivc')
+                ops.append({'op': 'set_discrete', 'val': {int: rng.choice([7, -2]), str: rng.choice(['xyz', '']),
+                                                          list: rng.choice([[4, 5, 6], []])}[type(v0)]})
             if rng.random() < 0.3 and nf < 3:
                 kinds = ('analysis_error', 'nan')
                 ops += gen_faults(rng, w, 1, kinds=kinds, methods=None if rng.random() < 0.5 else ['compute'])
@@ -528,6 +532,32 @@ class C04(WorldCheck):
                     if not sim.check_values(inv_out='I-04-outputs', inv_in='I-04-inputs'):
                         viol.extend(sim.viol)
                         return
+                    # every discrete input holds the object its source output holds now (the stubs pass their
+                    # discrete input on; a solver that finds the continuous state converged need not re-run them)
+                    downer = {d['name']: c for c in w['comps'] for d in c.get('discrete_out', [])}
+
+                    def sysof(c):
+                        if c['kind'] == 'ivc':
+                            return sim.p.model._get_subsystem('ivc')
+                        return sim.p.model._get_subsystem(sim.absn(c['outs'][0]['name']).rsplit('.', 1)[0])
+                    for c in w['comps']:
+                        for d in c.get('discrete_in', []):
+                            sc = downer[d['src']]
+                            if sc['kind'] != 'ivc' and any(s_['nl'] == 'nlbj' or (s_['nl'] == 'nlbgs' and s_.get('use_apply'))
+                                                           for s_ in w['solvers'].values()):
+                                # a Jacobi sweep -- and the residual evaluation of a Gauss-Seidel solver with
+                                # use_apply_nonlinear, which may be all it does on a converged state -- hands a
+                                # component what its source held at the one transfer at the start, and the
+                                # components' compute then moves their discrete outputs on
+                                probes.inc('discrete_chain_link_under_full_transfer_not_judged')
+                                continue
+                            got = sysof(c)._discrete_inputs[d['name']]
+                            cur = sysof(sc)._discrete_outputs[d['src']]
+                            probes.inc('discrete_inputs_checked')
+                            if got is not cur and got != cur:
+                                viol.append({'inv': 'I-04-discrete', 'msg': f"discrete input {c['name']}.{d['name']} holds "
+                                             f"{got!r} after run_model but its source {sc['name']}.{d['src']} holds {cur!r}"})
+                                return
                     if k > last_fault_idx >= 0:
                         probes.inc('recovered_after_fault')
                 elif k > last_fault_idx + 1 and last_fault_idx >= 0 and raised is not None:
@@ -722,7 +752,22 @@ class C08(HistoryCheck):
         return {'mode': rng.choice(['auto', 'fwd', 'rev'])}
 
     def gen_ops(self, rng, plan):
-        return standard_history(rng, plan['world'], nsteps=(2, 6), fault_p=0.35)
+        ops = standard_history(rng, plan['world'], nsteps=(2, 6), fault_p=0.35)
+        if rng.random() < 0.3:
+            # the scaling of some outputs is changed and the same Problem set up again: nothing computed under
+            # the old scaling may survive in a solver or vector
+            w = plan['world']
+            outs = [(o, int(np.prod(o['shape']))) for c in w['comps'] if c['kind'] != 'ivc' for o in c['outs']]
+            scales = {}
+            for o, n in rng.sample(outs, rng.randint(1, len(outs))):
+                o2 = {}
+                if rng.random() < 0.8:
+                    spec._scale(rng, o2, n, dict(neg_scaling=True, res_ref=True))
+                scales[o['name']] = o2
+            k = rng.randint(2, len(ops))
+            ops[k:k] = [{'op': 'rescale', 'scales': scales}, {'op': 'setup', 'same': True}, {'op': 'run_model'},
+                        gen_totals_op(rng, w)]
+        return ops
 
     def nontrivial(self, plan, st, faults, probes):
         return probes.get('scaled_twin_comparisons', 0) > 0
